@@ -117,7 +117,7 @@ type FoundViolation struct {
 	Log      []string
 }
 
-var execWatchdog = 60 * time.Second
+var execWatchdog = 30 * time.Second
 
 // RunOnce executes the scenario under the given choice prefix (defaults after
 // it). wantTrace records human-readable sites.
@@ -131,10 +131,7 @@ func RunOnce(t *testing.T, cfg Config, prefix []int, wantTrace bool) (res ExecRe
 		case <-done:
 		case <-time.After(execWatchdog):
 			fmt.Fprintf(os.Stderr, "[vsched] execution of %s hung for %v (prefix %v); aborting process\n", cfg.Name, execWatchdog, prefix)
-			if hangHook != nil {
-				hangHook(cfg.Name, prefix)
-			}
-			os.Exit(4)
+			abort(cfg.Name, prefix, x, s, "execution could not be torn down (hung)")
 		}
 	}()
 	defer close(done)
@@ -160,6 +157,12 @@ func RunOnce(t *testing.T, cfg Config, prefix []int, wantTrace bool) (res ExecRe
 		if x.final != nil {
 			x.final(x)
 		}
+		if len(x.Panics) > 0 {
+			// a thread died, possibly holding locks: the instance is poisoned and
+			// the bubble cannot be torn down. Report what Final found and stop
+			// this worker (the driver keeps flushed violations).
+			abort(cfg.Name, prefix, x, s, "a managed thread panicked: "+x.Panics[0])
+		}
 		if x.cleanup != nil {
 			x.cleanup()
 		}
@@ -179,11 +182,30 @@ func RunOnce(t *testing.T, cfg Config, prefix []int, wantTrace bool) (res ExecRe
 	return res
 }
 
-var hangHook func(name string, prefix []int)
+var hangHook func(name string, choices []int, fails []Failure, why string)
 
 // SetHangHook installs a callback run just before the process is aborted
-// because an execution could not be torn down.
-func SetHangHook(f func(name string, prefix []int)) { hangHook = f }
+// because an execution panicked or could not be torn down. fails are the
+// violations that execution had already recorded.
+func SetHangHook(f func(name string, choices []int, fails []Failure, why string)) { hangHook = f }
+
+func abort(name string, prefix []int, x *X, s *Sched, why string) {
+	var fails []Failure
+	choices := prefix
+	if x != nil && s != nil {
+		s.mu.Lock()
+		fails = append(fails, x.fails...)
+		choices = make([]int, len(s.choices))
+		for i, c := range s.choices {
+			choices[i] = c.chosen
+		}
+		s.mu.Unlock()
+	}
+	if hangHook != nil {
+		hangHook(name, choices, fails, why)
+	}
+	os.Exit(4)
+}
 
 type workItem struct {
 	prefix []int
